@@ -128,7 +128,7 @@ func (x *Run) modInstr(ins ssa.Instruction, ms *ModSet, seen map[*ssa.Function]b
 	case *ssa.MakeMap:
 		x.modMap(i.Type(), ms)
 	case *ssa.MakeChan:
-		ms.Arrs[x.chClosedArr()] = true
+		ms.Arrs[x.chClosedArr(i.Type())] = true
 		ms.Arrs[x.chCapArr()] = true
 	case *ssa.Alloc:
 		el := i.Type().(*types.Pointer).Elem()
@@ -165,6 +165,9 @@ func (x *Run) modCall(cc *ssa.CallCommon, ms *ModSet, seen map[*ssa.Function]boo
 		declaredInFrp := false
 		if named, ok := types.Unalias(cc.Value.Type()).(*types.Named); ok && named.Obj().Pkg() != nil {
 			declaredInFrp = strings.HasPrefix(named.Obj().Pkg().Path(), frpPrefix)
+			if x.spec.effectFree[named.Obj().Pkg().Path()+"."+named.Obj().Name()] {
+				declaredInFrp = false
+			}
 		}
 		if declaredInFrp {
 			ms.Top = true
@@ -177,7 +180,7 @@ func (x *Run) modCall(cc *ssa.CallCommon, ms *ModSet, seen map[*ssa.Function]boo
 		case "delete":
 			x.modMap(cc.Args[0].Type(), ms)
 		case "close":
-			ms.Arrs[x.chClosedArr()] = true
+			ms.Arrs[x.chClosedArr(cc.Args[0].Type())] = true
 		}
 		return
 	}
